@@ -122,12 +122,7 @@ fn inner_file_handler(
 
 fn blacklist_check(request: &Request, state: Arc<AppState>) -> Option<Response> {
     // Return error 403 if the address was blacklisted
-    if state
-        .config
-        .blacklist
-        .list
-        .contains(&request.address.origin_addr)
-    {
+    if is_blacklisted(request, &state) {
         state.logger.warn(format!(
             "{}: Blacklisted IP attempted to request {}",
             request.address, request.uri
@@ -140,6 +135,19 @@ fn blacklist_check(request: &Request, state: Arc<AppState>) -> Option<Response> 
     }
 
     None
+}
+
+/// Checks whether the origin of the request, or any address it was forwarded through (including the connected
+///   peer itself), is blacklisted. A client cannot move itself off the list by sending its own `X-Forwarded-For`.
+pub(crate) fn is_blacklisted(request: &Request, state: &AppState) -> bool {
+    let list = &state.config.blacklist.list;
+
+    list.contains(&request.address.origin_addr)
+        || request
+            .address
+            .proxies
+            .iter()
+            .any(|proxy| list.contains(proxy))
 }
 
 fn cache_check(request: &Request, state: Arc<AppState>, host: usize) -> Option<Response> {
